@@ -190,3 +190,14 @@ def run(facts, rep, ctx):
     round4.cf1(facts, rep)
     round4.tb12(facts, rep)
 
+
+
+_run_before_round5 = run
+
+
+def run(facts, rep, ctx):
+    """rules added after the fourth seeding round (rules/round5.py)"""
+    _run_before_round5(facts, rep, ctx)
+    from . import round5
+    if ctx.get('flavor') != 'nochk':
+        round5.po10(facts, rep)
